@@ -65,7 +65,33 @@ for ((i = 0; i < NSH; i++)); do
   "$WORK/genmc" imports "${common[@]}" -shardidx $i || exit 2
   ( cd "$SCR" && GOCACHE="$GMCCACHE" $GO build -trimpath -ldflags="-s -w" -o "$WORK/gmcrun" ./zzverif/genmc/cmd/gmcrun ) >"$WORK/link.log" 2>&1 \
     || { tail -50 "$WORK/link.log" >&2; die "cannot link the reflection binary (shard $i of $NSH)"; }
-  "$WORK/gmcrun" -prop "$ID" -tier "$TIER" -manifest "$WORK/manifest.json" -shard $i -partial "$WORK/partial-$i.json" || die "reflection binary failed (shard $i of $NSH)"
+  if ! "$WORK/gmcrun" -prop "$ID" -tier "$TIER" -manifest "$WORK/manifest.json" -shard $i -partial "$WORK/partial-$i.json" 2>"$WORK/gmcrun-$i.err"; then
+    tail -5 "$WORK/gmcrun-$i.err" >&2
+    if grep -q "^panic: schema error\|schema error:" "$WORK/gmcrun-$i.err"; then
+      # the init() of a generated package could not decode its own embedded schema (every generated package
+      # unzips its schema when it is loaded): the generated code does not match the schema it embeds
+      OD="${VERIF_OUT:-$VERIF}"; mkdir -p "$OD/replays/$ID" "$OD/evidence"
+      RP="$OD/replays/$ID/init-schema-error.json"
+      NPK=$(ls -d "$SCR"/zzverif/gmc/*/ 2>/dev/null | wc -l)
+      python3 - "$WORK/gmcrun-$i.err" "$RP" "$OD/evidence/$ID.json" "$ID" "$TIER" "$(( $(date +%s) - T0 ))" "$NPK" <<'PY'
+import json, sys
+err, rp, ev, pid, tier, wall, npk = sys.argv[1:8]
+txt = open(err, errors="replace").read()[-4000:]
+json.dump({"property": pid, "signature": "generated-package-init-fails:embedded-schema-undecodable", "count": 1,
+           "detail": "a generated package panicked in init() while unzipping its embedded schema; the reflection binary links every generated package of the run", "stderr_tail": txt,
+           "case": {"note": "re-run the check; the failing package is named in the goroutine trace of stderr_tail"}}, open(rp, "w"), indent=1)
+json.dump({"property_id": pid, "level": "model_checking", "tier": tier, "seed": 0, "violations": 1, "wall_s": float(wall),
+           "assumptions": ["run aborted: a generated package cannot be loaded"],
+           "coverage": {"exhaustive": False, "evaluations": max(int(npk), 1), "distinct_nontrivial": max(int(npk), 1),
+                        "rule": "generated packages that were compiled and linked into the reflection binary before the run aborted (counted from the scratch tree)",
+                        "samples": [{"aborted": "init() of a generated package failed to decode its embedded schema", "stderr_tail": txt[-600:]}],
+                        "note": "the reflection stage did not run; see the replay file"}}, open(ev, "w"), indent=1)
+PY
+      echo "VIOLATION property=$ID replay=$RP sig=generated-package-init-fails:embedded-schema-undecodable cases=1 detail=$(grep -m1 'schema error' "$WORK/gmcrun-$i.err" | cut -c1-200)"
+      exit 1
+    fi
+    die "reflection binary failed (shard $i of $NSH)"
+  fi
   PARTS+=("$WORK/partial-$i.json")
 done
 echo "genmc: pipeline before the report took $(( $(date +%s) - T0 ))s"
